@@ -211,6 +211,16 @@ func runCheck(spec *PropSpec, tier string, seed int, accept, verbose bool, overl
 		}
 		return 2
 	}
+	// a contract on a repository function with a body that is neither assumed, nor inlined, nor verified by any
+	// check would be used at call sites without ever being proved
+	for k, fc := range w.contracts {
+		if !fc.Extern && !fc.AssumeOnly && !fc.Inline && len(fc.Props) == 0 && strings.Contains(k, "github.com/lightninglabs/neutrino") {
+			if fn := w.lookupFunc(k); fn != nil && len(fn.Blocks) > 0 {
+				fmt.Printf("CHECK-BROKEN property=%s contract of %s serves no property (props), is not assume-only and not inline: it would be used unproved\n", id, k)
+				return 2
+			}
+		}
+	}
 	loadS := time.Since(t0).Seconds()
 	// functions serving this property
 	var keys []string
